@@ -119,6 +119,16 @@ Theorem C11_withdraw_live : forall n ops v vs a d,
 Proof. exact withdraw_live. Qed.
 Print Assumptions C11_withdraw_live.
 
+(*    ... nor from undelegating any amount the staking module's own validation accepts (in particular
+      everything): neither the distribution bookkeeping nor RemoveDelShares can fail *)
+Theorem C11_undelegate_live : forall n ops v vs a d amt sh,
+  Forall no_self ops -> let s := run (gen_state n) ops in
+  get_val v s = Some vs -> kget a (v_dels vs) = Some d -> 0 < d ->
+  0 < amt -> validate_unbond a amt vs = Ok sh -> ubd_entries a v s < max_entries ->
+  snd (step s (Undelegate v a amt)) = true.
+Proof. exact undelegate_live. Qed.
+Print Assumptions C11_undelegate_live.
+
 (* 7. a refused call changes nothing *)
 Theorem C11_failed_call_no_effect : forall s o s', step s o = (s', false) -> s' = s.
 Proof. exact failed_call_no_effect. Qed.
